@@ -41,7 +41,8 @@ func projExpr(e parser.ValueExpr) J {
 			pfail("nil ratio")
 		}
 		if !e.Numerator.IsInt64() || !e.Denominator.IsInt64() || e.Numerator.Int64() > math.MaxInt32 || e.Denominator.Int64() > math.MaxInt32 {
-			pfail("ratio out of range")
+			// beyond the integers of the specification: carried as the two digit strings (unreduced)
+			return J{"k": "portion", "big": true, "ns": e.Numerator.String(), "ds": e.Denominator.String()}
 		}
 		return ePortion(int(e.Numerator.Int64()), int(e.Denominator.Int64()))
 	case *parser.MonetaryLiteral:
